@@ -136,6 +136,63 @@ let has_failed_call (obs : string) : bool =
   (* known finding K2: a call that returned an error after serializing a packet desynchronizes the stream *)
   List.exists (fun op -> List.exists (fun call -> List.exists (function Other s -> String.length s >= 4 && String.sub s 0 4 = "ERR:" | _ -> false) call) op) (parse_obs obs)
 
+(* C09 trace oracles: statements of the property evaluated on the real event trace alone *)
+let c09_oracles (ops : string list) (impl : res list list list) : (string * bool) list =
+  let starts_with p s = String.length s >= String.length p && String.sub s 0 (String.length p) = p in
+  let field s i = (try List.nth (String.split_on_char ':' s) i with _ -> "") in
+  let next_id = ref 0 and ids_ok = ref true in
+  let conn_reqs = ref [] and pub_reqs = ref [] and play_reqs = ref [] in      (* outstanding ids by kind *)
+  let connected = ref false and gate_ok = ref true in
+  let consumed = ref [] and once_ok = ref true in
+  let accepted_pub = Hashtbl.create 7 and finished_pub = Hashtbl.create 7 in  (* key -> count *)
+  let accepted_play = Hashtbl.create 7 and finished_play = Hashtbl.create 7 in
+  let count h k = (try Hashtbl.find h k with Not_found -> 0) in
+  let bump h k = Hashtbl.replace h k (count h k + 1) in
+  let fin_ok = ref true and media_ok = ref true in
+  (try List.iter2 (fun op calls ->
+    let t = List.filter (fun s -> s <> "") (String.split_on_char ' ' op) in
+    let all = List.concat calls in
+    let errored = List.exists (function Other s -> starts_with "ERR:" s | _ -> false) all in
+    (match t with
+     | ("accept" | "reject") :: _ :: id :: _ ->
+       let id = int_of_string id in
+       let outstanding = List.mem id !conn_reqs || List.mem_assoc id !pub_reqs || List.mem_assoc id !play_reqs in
+       if not outstanding || List.mem id !consumed then begin
+         (* never issued, or already accepted / rejected: must be refused *)
+         if not (List.exists (function Other s -> s = "ERR:InvalidRequestId" | _ -> false) all) then once_ok := false
+       end else begin
+         consumed := id :: !consumed;
+         if List.exists (function Other s -> s = "ERR:InvalidRequestId" | _ -> false) all then once_ok := false;
+         if List.hd t = "accept" && not errored then begin
+           if List.mem id !conn_reqs then connected := true;
+           (match List.assoc_opt id !pub_reqs with Some key -> bump accepted_pub key | None -> ());
+           (match List.assoc_opt id !play_reqs with Some key -> bump accepted_play key | None -> ())
+         end
+       end
+     | _ -> ());
+    List.iter (function
+      | Other s when starts_with "E:ConnReq:" s ->
+        if int_of_string (field s 2) <> !next_id then ids_ok := false; conn_reqs := !next_id :: !conn_reqs; incr next_id
+      | Other s when starts_with "E:PubReq:" s ->
+        if int_of_string (field s 2) <> !next_id then ids_ok := false;
+        if not !connected then gate_ok := false;
+        pub_reqs := (!next_id, field s 4) :: !pub_reqs; incr next_id
+      | Other s when starts_with "E:PlayReq:" s ->
+        if int_of_string (field s 2) <> !next_id then ids_ok := false;
+        if not !connected then gate_ok := false;
+        play_reqs := (!next_id, field s 4) :: !play_reqs; incr next_id
+      | Other s when starts_with "E:PubFin:" s ->
+        let key = field s 3 in bump finished_pub key; if count finished_pub key > count accepted_pub key then fin_ok := false
+      | Other s when starts_with "E:PlayFin:" s ->
+        let key = field s 3 in bump finished_play key; if count finished_play key > count accepted_play key then fin_ok := false
+      | Other s when starts_with "E:Audio:" s || starts_with "E:Video:" s || starts_with "E:Meta:" s ->
+        let key = field s 3 in if count accepted_pub key = 0 then media_ok := false
+      | _ -> ()) all) ops impl
+  with Invalid_argument _ -> ());
+  if List.exists (fun calls -> List.exists (List.exists (function Other "NOSESSION" -> true | _ -> false)) calls) impl then [] else
+  [ "C09.request_ids_fresh", !ids_ok; "C09.requests_only_when_connected", !gate_ok; "C09.accept_reject_once", !once_ok;
+    "C09.finished_not_more_than_accepted", !fin_ok; "C09.media_only_for_accepted_publish", !media_ok ]
+
 let oracle (toks : string list) (obs : string) : (string * bool) list =
   let pk = impl_packets obs in
   let case = String.concat " " toks in
@@ -146,6 +203,8 @@ let oracle (toks : string list) (obs : string) : (string * bool) list =
       | ("video" | "audio") :: _ :: _ :: "1" :: _ -> n + 1 | _ -> n) 0 ops in
   let marked = List.length (List.filter fst pk) in
   let checks = [ "C18.droppable_only_when_asked", marked <= asked_drop ] in
+  let checks = (match ack_oracle ops (parse_obs obs) with Some b -> ("C17.ack_exactly_when_due", b) :: checks | None -> checks) in
+  let checks = c09_oracles ops (parse_obs obs) @ checks in
   if has_failed_call obs then checks     (* statement restricted to histories without a failed call (DESIGN C18 / K2) *)
   else
     checks @ [ "C18.decodable", decodable pk (fun _ _ -> true);
